@@ -361,6 +361,12 @@ func nextGraphemeTokenInfo(buf []byte, state int, forceMergeNext bool, lastWasRI
 		nextLastWasRI = false
 	}
 
+	if width <= 0 {
+		// A cluster that takes no cell of its own (a lone emoji modifier, a soft
+		// hyphen, a zero width space) belongs to the character before it, whether
+		// it arrives in the same read as its neighbours or not.
+		merge = true
+	}
 	if merge {
 		width = 0
 	}
